@@ -26,6 +26,16 @@ from cryptography import x509
 from .certificates import get_certificate_fingerprint
 
 
+def _host_key(name: str) -> str:
+    """The form of a host name under which pins are compared."""
+    if not name.isascii():
+        try:
+            return name.encode("idna").decode("ascii").lower()
+        except UnicodeError:
+            pass
+    return name.lower()
+
+
 class TOFUDatabase:
     """SQLite-backed TOFU certificate database.
 
@@ -85,9 +95,12 @@ class TOFUDatabase:
         # A-Z only, while connections look pins up under str.lower() of the host
         # (the URL parser's lower-casing): the two must agree for every letter,
         # or a pin for "ÉCOLE.example" is never found.
+        # A name that is not ASCII is resolved, and sent as SNI, in its IDNA form
+        # ("ｌocalhost" and "loc\u00adalhost" reach localhost): it is the same host, and
+        # its pin is the pin that decides.
         conn.create_collation(
             "NOCASE",
-            lambda a, b: (a.lower() > b.lower()) - (a.lower() < b.lower()),
+            lambda a, b: (_host_key(a) > _host_key(b)) - (_host_key(a) < _host_key(b)),
         )
         try:
             yield conn
